@@ -8,6 +8,7 @@ FUNCTIONS = ["metaiterator_advance", "Port::MetaIterator::MetaIterator", "Port::
              "Port::MetaContainer::MetaContainer", "Port::MetaContainer::begin", "Port::MetaContainer::end", "Port::MetaContainer::find",
              "Port::MetaContainer::length", "Port::MetaContainer::operator[]", "Port::meta"]
 TRUSTED = ["CBMC 6.11.0 (goto-cc, goto-instrument --dfcc, cbmc; built-in SAT back end), CBMC's strcmp model",
+           "cvc5 (SMT back end of the four quantified proof obligations C17.*.exact*, reported under static_facts)",
            "extraction rules of props/C17.py on src/cpp/ports.cpp and include/rtosc/ports.h as listed in infrastructure_notes "
            "(ref-param, method, ctor-init, this-ret, range-for, temp-ctor, struct-lift, ns) and the three-line glue MetaIterator_make/"
            "MetaContainer_make that models construction of a C++ temporary",
@@ -30,11 +31,12 @@ ASSUMPTIONS = [
     "contracts/meta.h, applied by a macro between the two extracted files); the same step is asserted of the real operator++ for every j "
     "in the same run, and C17.shape_lookup_real.* re-run small shapes without the replacement. In the iteration part the iterator is "
     "re-assigned the pointer values just asserted equal (cut), which keeps pointers concrete and changes nothing when the assertions hold",
-    "proof obligations (block length <= 2^16): memory safety, frame, termination and result ranges hold for all inputs under the entry "
-    "facts of wf_block; `the scan does not stop early` is stated for an arbitrary ghost offset M_G inside the entry (for metaiterator_advance "
-    "as a proved conclusion: every byte between the key start and the reported NUL is non-NUL; for operator++ and length(): assuming M_G is "
-    "no stopping place, the scan does not stop at M_G) - generalising over M_G to `lands exactly on the next entry` is a paper step, the "
-    "exact landing is decided by the bounded shape obligations",
+    "proof obligations (block length <= 2^16), two contract sets on one entry of a well-formed block described by ghost offsets: (a) "
+    "quantifier-free, SAT back end: memory safety, frame, termination, result ranges, and `the scan does not stop at the arbitrary ghost "
+    "offset M_G` (generalising over M_G is a paper step); (b) quantified (`no NUL inside key and value` as __CPROVER_forall), SMT back "
+    "end cvc5, run by static_checks(): operator++ lands EXACTLY on the next entry's key/value or the null iterator, length() == block "
+    "length. cvc5 is trusted for (b); its `unknown` answers are reported as undecided. The requires of (b) are shown satisfiable on one "
+    "concrete example block (C17.forall_requires.example); the canaries run on set (a)",
     "blocks of 5..8 entries (the property's quantifier goes to 8) are only sampled (quick: one shape of 6 and one of 8 entries; thorough: 12 shapes); "
     "the per-entry proof obligations are what carries beyond 4",
     "literal check: g++ on the host expands the real macros (sizeof and bytes of the string literal); rOptions is checked for 2 options",
@@ -256,13 +258,62 @@ def shape_key(kl, vl):
     return "k%d_%s_%s" % (len(kl), "".join(map(str, kl)), "".join("n" if v < 0 else str(v) for v in vl))
 
 
-def obligations(ctx):
+def _defs(ctx):
     q = lambda f: '"%s"' % os.path.join(ctx.ext, f)
     raw = {"META_TYPES": q(TYPES), "META_ITER_INC": q(EXT), "META_CONT_INC": q(EXT2)}
     inj = {"META_TYPES": q(TYPES), "META_ITER_INC": q("inj_" + EXT), "META_CONT_INC": q("inj_" + EXT2)}
+    return raw, inj
+
+
+def smt_obligations(ctx):
+    """Quantified contract set (contracts/meta.h, C17_FORALL): `no NUL inside key and value` as __CPROVER_forall, back end cvc5:
+    operator++ lands EXACTLY on the next entry, length() == block length, for any block length <= 2^16."""
+    raw, inj = _defs(ctx)
+    P = "harness/C17/proof.c"
+    pq = dict(mode="proof", defines=dict(inj, C17_FORALL=None), loops=True, termination=True, instr=["--no-malloc-may-fail"],
+              cbmc=["--object-bits", "8"], solver="--cvc5", timeout=1800, mem_gb=8)
+    return [
+        Obl("C17.metaiterator_advance.exact", "C17", P, entry="h_advance", enforce="metaiterator_advance", **pq),
+        Obl("C17.MetaIterator_inc.exact_landing", "C17", P, entry="h_inc", enforce="MetaIterator_inc", replace=["metaiterator_advance"], **pq),
+        Obl("C17.MetaContainer_length.exact", "C17", P, entry="h_length", enforce="MetaContainer_length", **pq),
+        Obl("C17.begin_end_meta.exact", "C17", P, entry="h_begin_end", replace=["metaiterator_advance"], **pq),
+    ]
+
+
+def static_checks(ctx):
+    """Runs the cvc5 obligations itself and reports them as static facts. Reason: an SMT solver may answer `unknown` (it does so
+    whenever a quantified goal is NOT valid, e.g. on a mutant); cbmc then reports the properties with status ERROR, and
+    vlib.run_obligation counts only FAILURE as failed - a plain Obl would be shown as `pass`. Here: every property SUCCESS => fact
+    holds; any FAILURE => violation; anything else => undecided (exit 2)."""
+    from concurrent.futures import ThreadPoolExecutor
+    obls = smt_obligations(ctx)
+    with ThreadPoolExecutor(max_workers=len(obls)) as ex:
+        results = list(ex.map(lambda o: vlib.run_obligation(ctx, o), obls))
+    facts = []
+    for o, r in zip(obls, results):
+        sts = {}
+        for pr in getattr(r, "raw_results", None) or []:
+            sts[pr.get("status")] = sts.get(pr.get("status"), 0) + 1
+        other = {k: v for k, v in sts.items() if k not in ("SUCCESS", "FAILURE")}
+        if r.status in ("error", "timeout") or other or not sts:
+            ctx.infra_errors.append("%s: SMT back end gave no verdict (status %s, property statuses %s) %s"
+                                    % (o.name, r.status, sts, r.detail.strip()[:200]))
+            continue
+        ok = not r.failed
+        facts.append({"name": o.name, "ok": ok, "mode": "proof (cvc5, quantified requires)", "cbmc_properties": r.n_props,
+                      "wall_s": round(r.wall, 1),
+                      "detail": ("proved for every block length <= 2^16: %d cbmc properties, all SUCCESS" % r.n_props) if ok
+                                else "FAILED: " + "; ".join("%s %s" % f for f in r.failed[:5])})
+        ctx.notes.append("static fact %s: %s (%.1fs)" % (o.name, "proved" if ok else "FAILED", r.wall))
+    return facts
+
+
+def obligations(ctx):
+    raw, inj = _defs(ctx)
     P = "harness/C17/proof.c"
     pf = dict(mode="proof", defines=inj, loops=True, termination=True, instr=["--no-malloc-may-fail"],
               cbmc=["--object-bits", "8", "--max-field-sensitivity-array-size", "64"], timeout=900, mem_gb=8)
+    # quantifier-free set (SAT): safety, frame, termination, ranges, per-ghost-offset landing; carries the canaries
     obls = [
         Obl("C17.metaiterator_advance.contract", "C17", P, entry="h_advance", enforce="metaiterator_advance",
             functions=["metaiterator_advance"], **pf),
@@ -275,6 +326,14 @@ def obligations(ctx):
         Obl("C17.MetaIterator_inc.contract.canary", "C17", P, entry="h_inc", enforce="MetaIterator_inc", replace=["metaiterator_advance"],
             canary=True, **pf),
         Obl("C17.metaiterator_advance.contract.canary", "C17", P, entry="h_advance", enforce="metaiterator_advance", canary=True, **pf),
+        Obl("C17.MetaContainer_length.contract.canary", "C17", P, entry="h_length", enforce="MetaContainer_length", canary=True, **pf),
+    ]
+    # the quantified set (cvc5, exact landing) is run by static_checks() below, not as plain obligations: see there
+    obls += [
+        # non-vacuity of the quantified requires: they hold for a concrete example block (SAT back end expands constant-bound quantifiers)
+        Obl("C17.forall_requires.example", "C17", P, entry="h_forall_example", defines=dict(raw, C17_FORALL=None), mode="bounded",
+            bound="one concrete example block (satisfiability witness of the quantified requires clauses)",
+            cbmc=["--unwind", "16", "--unwinding-assertions"], timeout=300),
     ]
     S = "harness/C17/shape.c"
     shapes = enumerate_shapes(ctx.tier)
